@@ -4,16 +4,17 @@
 # Prints one line per property: caught / MISSED with the oracle ids, then replays the first replay
 # file on the changed tree (must reproduce) and on /repo (must be clean).
 set -u
+VERIF=$(cd "$(dirname "$0")/.." && pwd)
 D=$1; shift
 for p in "$@"; do
   log="$D/check-$p.log"
-  env VERIF_REPO="$D" VERIF_OUT="$D/.verif-out" timeout -k 5 1500 /verif/check "$p" quick >"$log" 2>&1; rc=$?
+  env VERIF_REPO="$D" VERIF_OUT="$D/.verif-out" timeout -k 5 1500 "$VERIF/check" "$p" quick >"$log" 2>&1; rc=$?
   oracle=$(grep -o "oracle=[A-Za-z0-9_.-]*" "$log" | sort -u | tr '\n' ' ')
   verdict=MISSED; [ $rc -eq 1 ] && verdict=caught; [ $rc -ge 2 ] && verdict=harness-error-rc$rc
   rep=""; f=$(grep -o "replay=[^ ]*\.json" "$log" | head -1 | cut -d= -f2)
   if [ -n "$f" ] && [ -f "$f" ]; then
-    VERIF_REPO="$D" /verif/check replay "$f" >/dev/null 2>&1; r1=$?
-    /verif/check replay "$f" >/dev/null 2>&1; r0=$?
+    VERIF_REPO="$D" "$VERIF/check" replay "$f" >/dev/null 2>&1; r1=$?
+    "$VERIF/check" replay "$f" >/dev/null 2>&1; r0=$?
     rep="replay-on-changed=$r1 replay-on-unchanged=$r0"
   fi
   echo "$(basename $D) $p $verdict $oracle $rep"
